@@ -29,6 +29,11 @@ def run(rep):
     rep.guard(c08.x7, rep, w)     # an ImportError that was delivered to a handler must not be followed by further pushes in the import handler
 
 
+def c08_err_exits(f):
+    import c08
+    return c08.err_exits(f)
+
+
 def m1(rep, w):
     c = w.yarel
     r = rep.rule('M1', 'loading, compiling and running a module body happen only on the miss edge of the module registry look-up; the '
@@ -72,6 +77,13 @@ def m1(rep, w):
                 'runs it again' % what, f.loc())
     r.check(bool(reg) and bool(body) and all(any(rg in dom.get(bd, ()) for rg in reg) for bd in body), 'the module is registered before its body runs',
             'the body is started before the module is registered: a cyclic import is not recognised and recurses', f.loc())
+    # nothing refuses an import before the registry has been consulted: a module that is already loaded is handed out whatever else is the case
+    # (a call-depth test belongs to the path that starts a module body; hoisted above the look-up, `import` of a loaded module fails at full depth)
+    early = [x for x in f.normal_blocks() if f.blocks[x]['t']['t'] == 'call' and callee_name(f.blocks[x]['t']) in (VM + 'try_handle_error', VM + 'runtime_error')
+             and sw not in dom.get(x, ())]
+    early += [x for x in c08_err_exits(f) if sw not in dom.get(x, ())]
+    r.check(not early, 'start_import_impl: no error exit before the registry look-up', 'an import can be refused before the registry was consulted: importing a module that is '
+            'already loaded then fails (e.g. at full call depth) instead of yielding the module', f.loc(f.blocks[early[0]]['t'].get('sp')) if early else f.loc())
     # the hit edge: imported ? push module : ImportError. These clauses are stated over the per-module flag; a tree that keeps the still-loading state
     # some other way (a VM-level stack of modules being loaded) is one they cannot judge
     if not any(fd['n'] == 'imported' for fd in c.adts.get('yarel::object::ObjModule', {'variants': [{'fields': []}]})['variants'][0]['fields']):
